@@ -39,7 +39,7 @@ CLAIMED = {
         'by an event on that job, and at quiescence every accepted job is '
         'resolved and the cache consistent. Exploration: no claim of absence.',
         'Workers are simulated (engines/simpool.py); parent-thread races are below '
-        'the atomic step; zones of open known findings (D7/D10) are '
+        'the atomic step; the zone of the open known finding D10 (faults after close) is '
         'excluded by construction and replayed once per run.',
         'DESIGN.md section 3 C01, section 2 E1'),
     'C02': (
@@ -67,9 +67,10 @@ CLAIMED = {
         'not before timeout after the reaping step, and is resolved by the first '
         'supervision step after it; the text names the real status; other jobs '
         'are unaffected. Exploration level.',
-        'Simulated workers; deaths reaped before their ACK is consumed (D7) are '
-        'an open known finding, excluded by construction and replayed; losses of '
-        'imap parts are judged item by item since the D4/D13/D9 repair.',
+        'Simulated workers; detection = the supervision step that sees the worker '
+        'reaped and the job\'s ACK consumed. Losses of imap parts (D4/D13/D9) and '
+        'deaths reaped before their ACK is consumed (D7) are generated and judged '
+        'since their repair; faults after close() (D10) stay excluded.',
         'DESIGN.md section 3 C04'),
     'C05': (
         'simpool',
@@ -189,7 +190,8 @@ CLAIMED = {
         'Generated scenarios (pool size 1-4, threads on/off, workers idle / inside '
         'task code / inside a task swallowing BaseException, 0-8 queued jobs; '
         'terminate, terminate twice, del+gc, terminate_job, operator SIGTERM proven '
-        'to land inside the task) run on real pools: terminate() returns within '
+        'to land inside the task; also while the supervisor replaces workers, '
+        'between two forks or inside a slow one) run on real pools: terminate() returns within '
         'the bound, afterwards no worker process and no pool thread is left, '
         'results delivered before stay intact, repeated calls raise nothing; a '
         'signalled worker leaves the pool, runs its exit callback and starts no '
